@@ -25,10 +25,21 @@ KuSigs == {<<e>> : e \in KuEntry}
           \cup {<<[kid |-> "k1", by |-> "k1", ok |-> TRUE], e>> : e \in KuEntry}
           \cup {<<[kid |-> "k2", by |-> "k2", ok |-> TRUE], e, [kid |-> "k1", by |-> "k1", ok |-> TRUE]>> : e \in KuEntry}
 
+\* entries attributed to an identifier that is k1's SPELT DIFFERENTLY (upper-case hexadecimal letters "k1^", another
+\* last character "k1~"), genuinely made with k1's key: they name no authorised key and never count - alone, next to
+\* k1's own entry, in either order
+Near(n) == [kid |-> n, by |-> "k1", ok |-> TRUE]
+Own(k) == [kid |-> k, by |-> k, ok |-> TRUE]
+NearAuth == {<<"k1">>, <<"k1", "k2">>, <<"k2", "k1">>}
+NearSigs == UNION {{<<Near(n)>>, <<Own("k1"), Near(n)>>, <<Near(n), Own("k1")>>, <<Near(n), Own("k1"), Near(n)>>,
+                    <<Own("k2"), Near(n)>>, <<Near(n), Own("k2"), Own("k1")>>} : n \in {"k1^", "k1~"}}
+            \cup {<<Near("k1^"), Near("k1~")>>, <<Near("k1~"), Own("k1"), Near("k1^")>>}
+
 MCInit ==
   /\ t \in Thresholds
   /\ \/ auth \in SeqsUpTo(Keys, MaxAuth) /\ sigs \in SeqsUpTo(SigSet, MaxSigs) \cup SplitDups
      \/ auth \in KuAuth /\ sigs \in KuSigs
+     \/ auth \in NearAuth /\ sigs \in NearSigs
   /\ MInitRest
 
 MCSpec == MCInit /\ [][MNext]_mvars
